@@ -788,6 +788,9 @@ pub fn canary() -> Result<(), String> {
 }
 
 pub fn replay_case(case: &Value) -> i32 {
+    if case["engine"] == "timers-concurrent" {
+        return concurrent::replay_case(case);
+    }
     if case["api"] == "legacy" {
         return legacy::replay_case(case);
     }
@@ -1542,5 +1545,137 @@ pub mod viacore {
                 1
             }
         }
+    }
+}
+
+// ---------------------------------------------------------------------------------------------
+// concurrent id allocation: 2-3 real threads create timers at the same time under the controlled
+// scheduler, with every atomic operation of crux_time / crux_core a schedule point
+
+pub mod concurrent {
+    use super::*;
+    use crate::sched::{explore_controlled, ControlledResult};
+
+    /// ids of the timers one thread created, in creation order; plus whether two of its own handles
+    /// compared equal
+    type Out = (Vec<usize>, bool);
+
+    fn body(per_thread: usize, t: usize) -> Box<dyn FnOnce() -> Out + Send> {
+        Box::new(move || {
+            let mut ids = vec![];
+            let mut handles: Vec<TimerHandle> = vec![];
+            for i in 0..per_thread {
+                let (mut cmd, h): (Command<TEffect, TEvent>, TimerHandle) = if (t + i) % 2 == 0 {
+                    let (b, h) = Time::<TEffect, TEvent>::notify_after(after_payload(2));
+                    (b.then_send(move |o| outcome_event(i, o)), h)
+                } else {
+                    let (b, h) = Time::<TEffect, TEvent>::notify_at(at_payload(2));
+                    (b.then_send(move |o| outcome_event(i, o)), h)
+                };
+                for e in cmd.effects() {
+                    let TEffect::Time(r) = e;
+                    match &r.operation {
+                        TimeRequest::NotifyAfter { id, .. } | TimeRequest::NotifyAt { id, .. } => ids.push(id.0),
+                        _ => {}
+                    }
+                }
+                handles.push(h);
+            }
+            let own_equal = (0..handles.len()).any(|a| (a + 1..handles.len()).any(|b| handles[a] == handles[b]));
+            (ids, own_equal)
+        })
+    }
+
+    pub struct Found {
+        pub key: String,
+        pub what: String,
+        pub threads: usize,
+        pub per_thread: usize,
+        pub choices: Vec<u8>,
+    }
+
+    fn judge(results: &[Option<Out>], threads: usize, per_thread: usize) -> Option<(String, String)> {
+        let mut all = vec![];
+        for r in results {
+            let Some((ids, own_equal)) = r else { return Some(("concurrent/thread-did-not-finish".into(), "a creating thread did not return".into())) };
+            if ids.len() != per_thread {
+                return Some(("concurrent/timer-without-request".into(), format!("a thread created {per_thread} timers but saw {} requests", ids.len())));
+            }
+            if *own_equal {
+                return Some(("concurrent/handles-compare-equal".into(), "two handles of different timers compare equal".into()));
+            }
+            all.extend(ids.iter().copied());
+        }
+        let distinct: BTreeSet<usize> = all.iter().copied().collect();
+        if distinct.len() != threads * per_thread {
+            return Some(("concurrent/timer-id-handed-out-twice".into(), format!("timer ids {all:?}: {} timers got {} distinct ids", all.len(), distinct.len())));
+        }
+        None
+    }
+
+    /// Canonical form of the ids of one execution: first-occurrence numbering in thread order, so
+    /// that the process-wide counter's absolute value does not matter.
+    fn show(results: &[Option<Out>]) -> String {
+        let mut flat: Vec<usize> = results.iter().flatten().flat_map(|(ids, _)| ids.iter().copied()).collect();
+        flat.sort_unstable();
+        let shape: Vec<Vec<usize>> = results
+            .iter()
+            .map(|r| r.as_ref().map(|(ids, _)| ids.iter().map(|i| flat.iter().position(|x| x == i).unwrap()).collect()).unwrap_or_default())
+            .collect();
+        format!("{shape:?}")
+    }
+
+    /// (threads, timers per thread, preemption bound)
+    pub fn explore(configs: &[(usize, usize, usize)], found: &mut Vec<Found>) -> Vec<(usize, usize, ControlledResult)> {
+        let mut out = vec![];
+        for &(threads, per_thread, bound) in configs {
+            let name: &'static str = Box::leak(format!("T{threads}x{per_thread} threads create timers concurrently (command API)").into_boxed_str());
+            let make = move || (0..threads).map(|t| body(per_thread, t)).collect::<Vec<_>>();
+            let res = explore_controlled(name, &make, bound, true, &show, &|ex| judge(&ex.results, threads, per_thread));
+            for (key, what, choices) in &res.violations {
+                found.push(Found { key: key.clone(), what: what.clone(), threads, per_thread, choices: choices.clone() });
+            }
+            out.push((threads, per_thread, res));
+        }
+        out
+    }
+
+    pub fn case_json(f: &Found) -> Value {
+        json!({"engine": "timers-concurrent", "threads": f.threads, "per_thread": f.per_thread, "choices": f.choices})
+    }
+
+    pub fn replay_case(case: &Value) -> i32 {
+        let threads = case["threads"].as_u64().unwrap_or(2) as usize;
+        let per_thread = case["per_thread"].as_u64().unwrap_or(1) as usize;
+        let choices: Vec<u8> = serde_json::from_value(case["choices"].clone()).unwrap_or_default();
+        let bodies = (0..threads).map(|t| body(per_thread, t)).collect::<Vec<_>>();
+        let ex = crate::sched::run_controlled(bodies, &choices, true, "replay");
+        for (i, d) in ex.decisions.iter().enumerate() {
+            println!("  decision {i}: threads at {:?}, enabled {:?}, chose thread {}", d.at, d.enabled, d.enabled[d.chosen]);
+        }
+        println!("abort: {:?} panics: {:?} ids per thread: {:?}", ex.abort, ex.panics, ex.results);
+        match judge(&ex.results, threads, per_thread) {
+            Some((k, w)) => {
+                println!("DIVERGENCE {k}: {w}");
+                1
+            }
+            None => {
+                println!("all timer ids distinct");
+                0
+            }
+        }
+    }
+
+    /// Canary: the judge must reject an execution in which two timers share an id.
+    pub fn canary() -> Result<(), String> {
+        let bad = vec![Some((vec![7usize, 8], false)), Some((vec![8usize, 9], false))];
+        if judge(&bad, 2, 2).is_none() {
+            return Err("timers-concurrent canary: a repeated timer id was accepted".into());
+        }
+        let good = vec![Some((vec![7usize, 8], false)), Some((vec![10usize, 9], false))];
+        if judge(&good, 2, 2).is_some() {
+            return Err("timers-concurrent canary: distinct ids were rejected".into());
+        }
+        Ok(())
     }
 }
